@@ -280,6 +280,44 @@ func checkC15(p *pue, c *c15Case, r *vstat.Run) outcome {
 			}
 		}
 	}
+	// ParseFromLexer as the very first call on a freshly built parser
+	if c.G != nil {
+		var fr res
+		var skip bool
+		if m := guard(func() {
+			fb, err := buildC15(c.G, c.Mapped, c.Retype)
+			if err != nil {
+				skip = true
+				return
+			}
+			fp := pueForGrammar(fb)
+			fsyms := fp.def.Symbols()
+			var felide []lexer.TokenType
+			for _, e := range fp.elided {
+				if tt, ok := fsyms[e]; ok {
+					felide = append(felide, tt)
+				}
+			}
+			l, err := fp.def.Lex(c.Filename, bytes.NewReader(in))
+			if err != nil {
+				skip = true
+				return
+			}
+			fpl, err := lexer.Upgrade(l, felide...)
+			if err != nil {
+				skip = true
+				return
+			}
+			fr.ast, fr.err = fp.fromLexer(fpl)
+		}); m == "" && !skip {
+			if errText(fr.err) != errText(base.err) {
+				return violationf("error-differs", "%s: ParseString on the parser in use returns error %q, ParseFromLexer as the first call on a freshly built parser returns %q", desc, errText(base.err), errText(fr.err))
+			}
+			if fr.err == nil && base.ast != nil && fr.ast != nil && gram.Plain(reflect.ValueOf(fr.ast)) != gram.Plain(reflect.ValueOf(base.ast)) {
+				return violationf("ast-differs", "%s: ParseFromLexer as the first call on a freshly built parser returns a different AST than ParseString on the parser in use", desc)
+			}
+		}
+	}
 	// a reader that has a Name: the explicit filename wins, the reader's name is the fallback for ""
 	{
 		eff := c.Filename
@@ -472,6 +510,10 @@ func checkC15(p *pue, c *c15Case, r *vstat.Run) outcome {
 				}
 				if got := *pl2.Peek(); got != ptoks[want] {
 					return violationf("trailing-position", "%s: after ParseFromLexer with AllowTrailing the caller's lexer is at %#v, the first unconsumed token is %#v", desc, got, ptoks[want])
+				}
+				// ... also for a caller who looks at the raw stream (a grammar may consume tokens of elided types by name)
+				if raw := int(pl2.RawCursor()); raw != end || *pl2.RawPeek() != ptoks[end] {
+					return violationf("trailing-position", "%s: after ParseFromLexer with AllowTrailing the caller's lexer has raw cursor %d (token %#v), the parse consumed %d tokens of the raw stream (next: %#v)", desc, raw, *pl2.RawPeek(), end, ptoks[end])
 				}
 				if r != nil && !ptoks[want].EOF() {
 					r.Count("trailing_input_left_for_the_caller")
